@@ -165,7 +165,12 @@ let k3_line (line : string) : string =
             c_term = term_of (get fs "term");
             c_avail = n_of_string (get fs "avail");
             c_sched = natlist (get fs "sched");
-            c_fuel = nat_of_int (int_of_string (get fs "fuel")) } in
+            c_fuel = nat_of_int (int_of_string (get fs "fuel"));
+            c_panic = (match (try List.assoc "panic" fs with Not_found -> "-") with
+                | "-" -> None
+                | s -> (match String.split_on_char ':' s with
+                    | [st; a] -> Some (nat_of_int (int_of_string st), z_of_string a)
+                    | _ -> failwith "panic")) } in
   let o = exec c in
   (* parameters as they stand after the stages, before the trailing setters *)
   let rec drop_last2 = function [] | [_] | [_; _] -> [] | x :: r -> x :: drop_last2 r in
